@@ -207,7 +207,7 @@ def weights(r, m, kind):
     if kind == 'nondyadic':
         return [r.choice([0.1, 0.2, 0.3, 0.7, 1.1, 1.3, 2.3]) for _ in range(m)]
     if kind == 'wide':
-        return [10 ** r.uniform(-3, 3) for _ in range(m)]
+        return [10 ** r.uniform(-2, 2) for _ in range(m)]     # rejection sampling cost grows with the weight ratio; 24 orders of magnitude are exercised in C16
     if kind == 'withzero':
         return [r.choice([0.0, 0.5, 1.0, 1.7]) for _ in range(m)]
     raise ValueError(kind)
